@@ -505,10 +505,39 @@ def r5_jobpath(chk: Check):
     chk.min_instances(n, 4, "Job path properties")
 
 
+def r6_defaults_not_aliased(chk: Check):
+    """R6: a declared default is copied into each instance, never aliased (an in-place edit of a
+    nested default would otherwise change the class-level default, the skip-if-default decision
+    and the identifiers of other instances)"""
+    tree = chk.tree
+    n = 0
+    for f in tree.nontest_funcs():
+        if f.module.name != "core.objects":
+            continue
+        for c in body_walk(f.node):
+            if not isinstance(c, ast.Call):
+                continue
+            d = dotted(c.func) or ""
+            if not (d.endswith(".set") or d.endswith("setattr")):
+                continue
+            for a in c.args:
+                for x in walk_local(a):
+                    if isinstance(x, ast.Attribute) and x.attr == "default":
+                        n += 1
+                        par = getattr(x, "_parent", None)
+                        wrapped = isinstance(par, ast.Call) and (dotted(par.func) or "").split(".")[-1] in ("clone", "deepcopy") and x in par.args
+                        chk.require(wrapped, chk.fkey(f, "default stored by " + src(c)[:80]),
+                                    f"`{src(c)}` stores the declared default object itself into the instance; it must be a copy "
+                                    "(clone): editing the nested default of one instance would silently edit the class default, "
+                                    "so the edited value still 'equals the default' and is left out of the identifier", chk.loc(f.module, c))
+    chk.min_instances(n, 1, "stores of a declared default into an instance")
+
+
 RULES = [
     ("R1", "no nondeterministic source (hash(), id(), environment, time, random, repr/str of objects) reaches the hasher", r1_no_nondeterminism),
     ("R2", "every loop feeding the hasher iterates in sorted order, or in an order that is part of the signature (list payload, init tasks)", r2_canonical_order),
     ("R3", "identifier cache: written only by identifiers() under _sealed; compute() returns it only if sealed, not None and loop-free; the loop flag is really written; unsealing resets the cache", r3_cache),
     ("R4", "the extracted byte-stream model of update/compute/identifiers equals the pinned model of released identifiers", r4_wire),
     ("R5", "Job.relpath / relmainpath / identifier read only the type identifier and the configuration identifier", r5_jobpath),
+    ("R6", "declared defaults are cloned into instances, never aliased", r6_defaults_not_aliased),
 ]
